@@ -35,6 +35,7 @@ type world struct {
 	cw     *chainx.World
 	hashes [nPrinc]util.Uint160
 	ids    [3]int32
+	ud     util.Uint160 // hash of the fourth instance layer B deploys
 }
 
 // buildWorld creates the prepared chain once; replicas replay its blocks.
@@ -400,7 +401,7 @@ func (rg *rig) runTest(ops []Op, committee bool) (*real, error) {
 		return nil, err
 	}
 	ic.VM.LoadScriptWithFlags(script, callflag.All)
-	ic.VM.GasLimit = sysFee
+	ic.VM.SetGasLimit(sysFee)
 	res := &real{}
 	if err := ic.Exec(); err != nil {
 		res.Fault = err.Error()
